@@ -739,12 +739,21 @@ def is_none_literal(body, op):
     return False
 
 
+WELL_KNOWN_INT_CONSTS = {}
+for _ty, _bits, _signed in (("i8", 8, True), ("i16", 16, True), ("i32", 32, True), ("i64", 64, True), ("isize", 64, True), ("i128", 128, True),
+                            ("u8", 8, False), ("u16", 16, False), ("u32", 32, False), ("u64", 64, False), ("usize", 64, False), ("u128", 128, False)):
+    WELL_KNOWN_INT_CONSTS["core::num::<impl %s>::MAX" % _ty] = (1 << (_bits - 1)) - 1 if _signed else (1 << _bits) - 1
+    WELL_KNOWN_INT_CONSTS["core::num::<impl %s>::MIN" % _ty] = -(1 << (_bits - 1)) if _signed else 0
+
+
 def const_int_eval(body, op, depth=0):
     """evaluate a compile-time integer expression (literals combined with + - * through checked-arithmetic temporaries)"""
     if not isinstance(op, dict) or depth > 12:
         return None
     if op.get("c") == "int":
         return int(op["v"])
+    if op.get("c") == "item":
+        return WELL_KNOWN_INT_CONSTS.get(op["def"])
     p = op_place(op)
     if p is None:
         return None
